@@ -20,6 +20,11 @@ def run(s):
         tasks.append(task(v, f"roundtrip[{acls.rsplit('.', 1)[1]}]", lambda acls=acls: roundtrip_obligations(v, acls, prop="C02")[0]))
     for tname, dcls, acls in COLLECTIONS:
         tasks.append(task(v, f"collection[{tname}]", lambda tname=tname, dcls=dcls, acls=acls: collection_obligations(v, tname, dcls, acls, prop="C02")))
+    # the base-class contract assumed at every sub-adapter call above, verified against the real bodies of adapters.py
+    import props.adapters_base as B
+    vb = B.install(with_models(new_verifier()))
+    for cname in B.METHODS:
+        tasks.append(task(vb, f"base-class[{cname}]", lambda cname=cname: B.obligations(vb, cname)))
     s.attempt_all(tasks)
     s.attempt("tables", lambda: tables(s, v))
     s.min_obligations = 50
@@ -31,9 +36,11 @@ def run(s):
 
 def finish(s):
     s.trusted |= {
-        "DataAdapter base-class contract (to_aoef registers the object under its key and returns the stored AOEF object; from_id returns "
-        "the registered object; values() lists the store in insertion order; stores keyed by identifier hence unique) -- the dict-based "
-        "bodies of adapters.py are not executed symbolically; exercised by the bounded stand-ins only",
+        "DataAdapter base-class contract (to_aoef registers the object under its key and returns the stored AOEF object; get_id does not "
+        "register for output; from_id returns the registered object; values() lists the store in insertion order): the generic uuid-keyed "
+        "bodies of adapters.py are verified against contracts/adapters.py by C02 (whole-store postconditions with a universal probe key); "
+        "still assumed: that the ghost predicate `missing` used at call sites is the complement of that store membership, TagAdapter's "
+        "integer ids (len(mapping): distinctness needs the invariant ids = 0..n-1, not proved), abstract assemble_* as uninterpreted functions",
         "structural induction over the adapter dependency DAG (load-side hypothesis at a node from its successors + load-order obligations): a fixed proof schema, not an SMT obligation",
         "pydantic construction contract; JSON layer (model_dump_json / model_validate_json identity on AOEF trees): stand-in only",
         "preconditions from the property's quantifier: simple-label terms, feature labels distinct per list, embedded objects valid",
